@@ -6,7 +6,7 @@ from contracts.slib import S, POLY, IOC
 from pyvc.core import Obj, PList, Unsupported
 
 INS = [["x"], ["x", "y"], ["y", "x"]]
-OUTS = [["z"], ["w", "z"], ["z", "w"]]
+OUTS = [["z"], ["w", "z"], ["z", "w"], ["y", "z"]]  # ([x,y],[z]) and ([x],[y,z]): the same variables in the same overall order, split differently
 B = "interfaces from %s x %s; assumptions 0-1 terms over {x}, guarantees 1 term over {x,z} (every support)" % (INS, OUTS)
 
 
@@ -17,6 +17,8 @@ def _b(r):
 def _contract(h, s, name, cls, reverse=False):
     ins = INS[h.ctx.choose(len(INS), name + ".in")]
     outs = OUTS[h.ctx.choose(len(OUTS), name + ".out")]
+    if set(ins) & set(outs):
+        return None, ins, outs  # not a well-formed interface: outside the precondition
     na = h.ctx.choose(2, name + ".na")
     c = Obj(cls, h.ctx)
     c.attrs["inputvars"] = PList([s.var(v) for v in ins], h.ctx)
@@ -39,6 +41,8 @@ def c_contract_eq(h):
     cls = h.I.load_module("pacti.contracts.polyhedral_iocontract").ns["PolyhedralIoContract"]
     c, ci, co = _contract(h, s, "c", cls)
     d, di, do = _contract(h, s, "d", cls, reverse=True)
+    if c is None or d is None:
+        return
     out = h.call(h.method(c, "__eq__"), [d])
     h.check("C14.eq.no_exception", out.kind == "return", "raised %s" % out.exc_name)
     if out.kind != "return":
@@ -68,6 +72,8 @@ def c_contract_eq_foreign(h):
     s = S(h)
     cls = h.I.load_module("pacti.contracts.polyhedral_iocontract").ns["PolyhedralIoContract"]
     c, _, _ = _contract(h, s, "c", cls)
+    if c is None:
+        return
     out = h.call(h.method(c, "__eq__"), [s.var("x")])
     h.check("C14.contract_eq.foreign_is_valueerror", out.kind == "raise" and out.exc_is(h.I, ValueError), "%r" % (out,))
 
@@ -116,6 +122,8 @@ def c_machine_dict(h):
     mod = h.I.load_module(PIC)
     cls = mod.ns["PolyhedralIoContract"]
     c, ci, co = _contract(h, s, "c", cls)
+    if c is None:
+        return
     out = h.call(h.method(c, "to_machine_dict"), [])
     h.check("C14.to_machine_dict.no_exception", out.kind == "return", "raised %s at %s" % (out.exc_name, out.where))
     if out.kind != "return":
